@@ -35,10 +35,21 @@ CMPB = ["B.cmp.str", "B.cmp.prefix", "B.cmp.str_noaccent", "B.cmp.prefix_noaccen
 FT = ["U.ft.make", "U.ft.get", "U.ft.isenc", "U.ft.supported", "U.ft.enable"]
 API_D = ["U.api.create", "U.api.free", "U.api.keygen", "U.api.store", "U.api.load", "U.api.get_birthday", "U.api.get_feature", "U.api.is_encrypted"]
 
+CMPF = ["U.cmpf.str", "U.cmpf.prefix", "U.cmpf.str_noaccent", "U.cmpf.prefix_noaccent", "U.cmpf.str_noaccent.full", "U.cmpf.prefix_noaccent.full", "L.cmpf.axioms", "L.cmp.order"]
+STRL = ["U.str.nfkd_lazy", "B.str.nfkd_lazy", "U.str.split"]
+STORE = ["U.st.store", "U.st.load", "U.api.store", "U.api.load", "L.st.inv1", "L.st.inv2"]
+BD = ["U.bd.encode", "U.bd.decode"]
 ND_COMMON = []
 
+def uniq(l):
+    out = []
+    for x in l:
+        if x not in out:
+            out.append(x)
+    return out
+
 P("C01", level="proof", design_ref="7/C01", units=PACK + ["U.api.encode", "U.str.write", "U.str.write.full"] + DEC + PHR + ["U.lang.search", "U.str.split", "U.str.nfkd_lazy", "L.rt.index", "U.lang.get_comparer"],
-  engines=["tables"],
+  engines=["tables", "statics"],
   text="Round trip decomposed into contracts proved on the real functions: packing/unpacking against the published layout with both "
        "inverse lemmas; polyseed_encode (sequence-level contract over an abstract language object: 16 words and 15 separators in order, "
        "cursor arithmetic, NFC hand-off); both decoders (status function and inverse layout); both phrase decoders over an arbitrary "
@@ -49,36 +60,36 @@ P("C01", level="proof", design_ref="7/C01", units=PACK + ["U.api.encode", "U.str
        "(DESIGN 7/C01), not one machine-checked theorem; NFC/NFKD are injected dependencies (utf8proc used for the closed Unicode facts); "
        "bsearch is trusted; byte content of the joined text inside polyseed_encode follows from the proved call sequence plus write_str's contract.",
   not_decided=["one end-to-end theorem over real strings (the composition above is glue)"])
-P("C02", level="proof", design_ref="7/C02", units=GF + ["L.gf.single", "L.gf.swap", "L.gf.unique", "U.api.load"] + DEC, engines=["tables"],
+P("C02", level="proof", design_ref="7/C02", units=uniq(GF + ["L.gf.single", "L.gf.swap", "L.gf.unique", "U.api.load"] + DEC + PHR + ["U.lang.search", "U.str.split", "U.str.nfkd_lazy"]), engines=["tables", "statics"],
   text="gf_elem_mul2, gf_poly_eval, gf_poly_encode, gf_poly_check are proved equal to a GF(2^11) Horner specification for "
        "all 2048 elements / all 2^176 polynomials; single-error, transposition and check-word-uniqueness lemmas are proved "
        "over those contracts with every coefficient, position and value symbolic; the decoders' and polyseed_load's contracts show the "
        "checksum status is returned exactly when the evaluation is non-zero, before any allocation (decoders) and with no seed surviving.",
   note="'another word of the same list' = another coefficient by the closed fact T.distinct (all words pairwise distinct under the comparer).")
-P("C03", level="proof", design_ref="7/C03", units=["U.gf.pack", "U.gf.encode", "L.gf.unique", "U.api.encode", "U.str.write", "U.str.write.full", "U.api.create", "L.rt.index"], engines=["tables"],
+P("C03", level="proof", design_ref="7/C03", units=["U.gf.pack", "U.gf.encode", "L.gf.unique", "U.api.encode", "U.str.write", "U.str.write.full", "U.api.create", "L.rt.index"], engines=["tables", "statics"],
   text="polyseed_data_to_poly is proved equal to the published layout written independently in spec.h (check word first, 10 secret bits MSB "
        "first + one feature/birthday bit per word); polyseed_encode is proved to use the stored check value as word 1, XOR the coin into word 2 "
        "only, write words[c0] sep ... words[c15] in order with the language's separator and apply NFC exactly when the language composes, "
        "to be a function of (seed, coin, language) only and to change nothing; per-language separator/compose flags and frozen lists are closed facts.",
   note="spec.h is the independent implementation; encode is proved over an abstract language object (table entry x -> one of 16 arbitrary strings); "
        "NFC itself is an injected dependency.")
-P("C04", level="proof", design_ref="7/C04", units=["U.api.keygen", "L.kdf.injective", "L.rt.index", "L.crypt.involution", "U.api.crypt", "U.gf.unpack", "U.st.load", "U.api.create"],
+P("C04", level="proof", design_ref="7/C04", units=["U.api.keygen", "L.kdf.injective", "L.rt.index", "L.crypt.involution", "U.api.crypt", "U.gf.unpack", "U.st.load", "U.api.create"], engines=["statics"],
   text="polyseed_keygen is proved against a contract that pins every KDF argument byte for byte (ghost-recording stub): "
        "one call, pw = 32-byte secret buffer, 32-byte salt per the published layout, 10000 iterations, caller's buffer and "
        "length passed through, key bytes not touched afterwards, no other dependency called, seed unchanged (frame); injectivity lemma; "
        "every constructor zero-pads the secret buffer, so equal abstract seeds give equal inputs on every path.",
   note="The PBKDF2 function itself is an injected dependency (assumed). key_size is symbolic in 1..64 (object-size cap).")
-P("C05", level="proof", design_ref="7/C05", units=["L.gf.coin", "U.gf.mul2", "U.gf.eval", "U.gf.check", "U.api.encode", "L.rt.index"] + DEC, engines=["tables"],
+P("C05", level="proof", design_ref="7/C05", units=uniq(["L.gf.coin", "U.gf.mul2", "U.gf.eval", "U.gf.check", "U.api.encode", "L.rt.index"] + DEC + PHR + ["U.gf.pack", "U.str.split"]), engines=["tables", "statics"],
   text="Lemma over the gf_poly_check contract: a valid codeword with coin A applied and coin B removed validates iff A == B, "
        "for all 2048x2048 pairs and all polynomials; encode applies the coin to word 2 only and after the check value, both decoders remove it "
        "before the check; L.rt.index: decode(encode(s, A), B) is OK iff A == B, ERR_CHECKSUM otherwise, and the phrases differ in word 2 only.",
   note="'differ in the second word only' at the level of strings uses the closed fact that distinct indices are distinct words.")
-P("C06", level="proof", design_ref="7/C06", units=["U.st.store", "U.st.load", "U.api.store", "U.api.load", "L.st.inv1", "L.st.inv2"],
+P("C06", level="proof", design_ref="7/C06", units=uniq(["U.st.store", "U.st.load", "U.api.store", "U.api.load", "L.st.inv1", "L.st.inv2"] + FT + ["U.gf.pack", "U.gf.check", "U.api.free"]), engines=["statics"],
   text="polyseed_data_store / polyseed_data_load proved against the byte-level image specification for all seeds and all 2^256 "
        "buffers; polyseed_load proved to return MEMORY, FORMAT, CHECKSUM, UNSUPPORTED, OK in that precedence, to hand out a "
        "canonical seed whose image is the buffer on OK and to free the wiped block otherwise; inverse lemmas over the contracts.",
   note="LP64 only; allocator/free/memzero are stubs (assumed).")
-P("C07", level="other", design_ref="7/C07, 6", units=["U.lang.search", "U.lang.get_comparer", "U.lang.registry"] + CMPU, engines=["tables"], exhaustive=True,
+P("C07", level="other", design_ref="7/C07, 6", units=uniq(["U.lang.search", "U.lang.get_comparer", "U.lang.registry"] + CMPU + ["U.str.split", "U.str.nfkd_lazy"] + PHR + DEC + CMPF + CMPB), engines=["tables"], exhaustive=True,
   text="Mostly closed obligations over 10 x 2048 constant strings, decided by exhaustive native evaluation through the real comparers and the real "
        "search (registry, strict sortedness, all pairs distinct, each word found at its own index, first-four-letters uniqueness, Unicode "
        "stability with utf8proc, SHA-256 against the digests recorded at the pinned release); the contract part (lang_search returns the index "
@@ -86,20 +97,20 @@ P("C07", level="other", design_ref="7/C07, 6", units=["U.lang.search", "U.lang.g
   note="'frozen as published' is a comparison with golden digests, not a deduction; bsearch is trusted; utf8proc is the trusted normaliser. "
        "KNOWN FINDING: the literal clause 'no word is a prefix of another' is false for the published English and Spanish lists "
        "(act/action, ano/anotar ...: words shorter than four letters); lists are frozen, see known_findings.json.")
-P("C08", level="proof", design_ref="7/C08", units=CMPB + CMPU + ["U.lang.get_comparer"] + DEC, engines=["tables"],
+P("C08", level="proof", design_ref="7/C08", units=uniq(CMPB + CMPU + ["U.lang.get_comparer"] + DEC + STRL + PHR + CMPF), engines=["tables"],
   text="Each comparer is checked equal to the reference acceptance rule (full word, or prefix of >= 4 base letters, accents = non-ASCII bytes "
        "ignored in es/fr) for all keys <= 10 bytes and elements <= 8 bytes (bounded, not counted as proved), proved memory-safe and terminating "
        "for all strings, compare_str proved functionally for all strings; the real search is evaluated exhaustively on every prefix length x "
        "accent subset x NFC/NFKD spelling x one-letter continuation of every word of every list against the rule; decoders depend on tokens only "
        "through the search result.",
   note="Comparer functional equivalence is BOUNDED in the key length (stated); 'accent' means any non-ASCII byte after NFKD (stated interpretation).")
-P("C09", level="proof", design_ref="7/C09", units=PHR + DEC + ["U.str.split", "U.lang.search"], engines=["tables"],
+P("C09", level="proof", design_ref="7/C09", units=uniq(PHR + DEC + ["U.str.split", "U.lang.search"] + ["U.str.nfkd_lazy", "U.gf.check", "U.lang.get_comparer"]), engines=["tables", "statics"],
   text="Both phrase decoders are proved over every search-outcome matrix (OK iff exactly one language recognises all 16 tokens, then the same "
        "indices and language as explicit decoding; MULT_LANG iff two or more, regardless of checksums; LANG iff none); both API decoders are "
        "proved to follow the precedence word count, language, checksum, memory, unsupported; str_split is proved against a functional tokeniser "
        "specification for strings of any length (empty tokens kept, one trailing space ignored, 17th token reported).",
   note="Unbounded str_split proof uses woven loop invariants with bounded quantifiers over the 576-byte buffer; empty token never matches a word by T.token_safe.")
-P("C10", level="proof", design_ref="7/C10", units=FT + ["U.api.create", "U.api.load", "U.api.get_feature", "U.api.is_encrypted", "L.pack.inv1", "L.st.inv1", "U.api.crypt", "L.rt.index"] + DEC,
+P("C10", level="proof", design_ref="7/C10", units=uniq(FT + ["U.api.create", "U.api.load", "U.api.get_feature", "U.api.is_encrypted", "L.pack.inv1", "L.st.inv1", "U.api.crypt", "L.rt.index"] + DEC + ["U.bd.encode", "U.gf.pack", "U.gf.unpack", "U.st.store", "U.st.load", "U.api.store"]), engines=["statics"],
   text="polyseed_enable_features proved from an arbitrary previous mask (most recent call wins, popcount returned); "
        "features_supported, make/get_features, is_encrypted proved; create, both decoders and load proved to refuse exactly the reserved bits "
        "(create before allocating; the others after the checksum, freeing the block); feature bits carried by the phrase/storage/crypt lemmas.",
@@ -109,20 +120,20 @@ P("C11", level="proof", design_ref="7/C11", units=["U.bd.encode", "U.bd.decode",
        "polyseed_get_birthday proved = epoch + k*step without overflow; polyseed_create proved to stamp the seed from exactly "
        "one call of the injected clock; packing, storage and crypt contracts carry all 10 bits unchanged.",
   note="The clock is an injected dependency (assumed arbitrary uint64).")
-P("C12", level="proof", design_ref="7/C12", units=["U.api.crypt", "L.crypt.involution", "L.crypt.wrongpw", "U.str.nfkd_lazy", "U.api.is_encrypted", "U.ft.isenc"],
+P("C12", level="proof", design_ref="7/C12", units=uniq(["U.api.crypt", "L.crypt.involution", "L.crypt.wrongpw", "U.str.nfkd_lazy", "U.api.is_encrypted", "U.ft.isenc"] + ["U.st.store", "U.st.load", "L.st.inv1", "U.gf.pack", "U.gf.unpack", "U.gf.encode", "L.pack.inv1", "U.api.store", "U.api.load"]), engines=["statics"],
   text="polyseed_crypt proved for every 32-byte mask: one KDF call with pw = the normalised password without terminator, the 16-byte mask salt, "
        "10000 iterations, 32 bytes; 19 bytes XORed with the top two bits of the 19th dropped, flag toggled, birthday/user bits unchanged, check "
        "value recomputed (canonical for every mask); involution and wrong-password lemmas over that postcondition.",
   note="'NFKD(password)' is the injected dependency's result (utf8_nfkd_lazy proved to call it iff a non-ASCII byte occurs in the first "
        "POLYSEED_STR_SIZE-1 bytes); longer ASCII passwords are truncated by the library -- outside the claimed domain, reported as an observation.")
-P("C13", level="proof", design_ref="7/C13", units=API_D + DEC + ["U.api.crypt", "U.api.encode", "U.ft.enable", "U.dep.inject", "U.gf.mul2"] + PACK + ["L.st.inv1", "L.rt.index", "L.crypt.involution"],
+P("C13", level="proof", design_ref="7/C13", units=uniq(API_D + DEC + ["U.api.crypt", "U.api.encode", "U.ft.enable", "U.dep.inject", "U.gf.mul2"] + PACK + ["L.st.inv1", "L.rt.index", "L.crypt.involution"] + GF + FT + BD + ["U.st.store", "U.st.load", "L.st.inv2", "U.dep.stdlib_time"]),
   engines=["statics"],
   text="Data refinement step by step: every constructor establishes the representation invariant (canonical) from a block with arbitrary "
        "contents, crypt preserves it, observers are functions of the abstract view; frames proved by dfcc assigns clauses / snapshots; the "
        "only mutable statics are the four known ones and each is written only by its owner (symbol-table + goto-program scan).",
   note="Induction over call histories is the standard, unmechanised glue; each step is machine-checked.",
   not_decided=["the induction over arbitrary finite histories itself"])
-P("C14", level="proof", design_ref="7/C14", units=["U.str.nfkd_lazy", "B.str.nfkd_lazy", "U.str.split", "U.lang.search", "U.st.load", "U.api.load", "U.api.crypt"] + CMPU + PHR + DEC,
+P("C14", level="proof", design_ref="7/C14", units=uniq(["U.str.nfkd_lazy", "B.str.nfkd_lazy", "U.str.split", "U.lang.search", "U.st.load", "U.api.load", "U.api.crypt"] + CMPU + PHR + DEC + CMPB + ["U.gf.check", "U.gf.unpack"]), engines=["statics"],
   text="Every unit runs with bounds, pointer, pointer-overflow, signed-overflow, shift and division checks and with the library's own assert()s "
        "enabled; all string loops (lazy NFKD, tokeniser, four comparers, linear search) are closed by inductive invariants with decreases "
        "clauses, so memory safety and termination hold for strings of any length; decoders/crypt/load return only documented statuses, do not "
@@ -134,14 +145,14 @@ P("C15", level="proof", design_ref="7/C15", units=["U.api.create", "U.api.free",
        "allocator gives the memory status with *seed_out untouched; polyseed_free(NULL) calls nothing; the free stub rejects "
        "foreign and repeated pointers; block contents are arbitrary in every proof.",
   note="'Subsequent calls behave normally' follows from the frame obligations of C13 (the only state is the ledger and the four statics).")
-P("C16", level="proof", design_ref="7/C16", units=["U.api.free", "U.api.crypt", "U.api.encode", "U.lang.phrase_decode", "U.api.create", "U.api.load"] + DEC,
+P("C16", level="proof", design_ref="7/C16", units=["U.api.free", "U.api.crypt", "U.api.encode", "U.lang.phrase_decode", "U.api.create", "U.api.load"] + DEC, engines=["statics"],
   text="polyseed_free proved to wipe the block through the injected memzero before the injected free receives it; woven exit assertions prove "
        "that str_tmp, words, poly, mask, pass_norm and the index copy of auto-detection are all-zero and were wiped through the injected "
        "function with their full size on every exit of encode, both decoders, crypt and polyseed_phrase_decode; create/load wipe poly.",
   note="Source-level only: compiler-made copies (spills, registers), dead stack contents and other optimisation levels are outside what a "
        "source-level contract can express.",
   not_decided=["residue in registers / dead stack frames of the compiled binary; behaviour at other optimisation levels"])
-P("C17", level="proof", design_ref="7/C17", units=["U.str.write", "U.str.write.full", "U.api.encode", "U.str.nfkd_lazy"], engines=["tables"],
+P("C17", level="proof", design_ref="7/C17", units=["U.str.write", "U.str.write.full", "U.api.encode", "U.str.nfkd_lazy"], engines=["tables", "statics"],
   text="T.fits[lang]: for each registered language the sum of per-position maximal word lengths (admissible indices) plus separators is "
        "below POLYSEED_STR_SIZE in both the NFKD and the NFC form (exhaustive); write_str proved to advance by exactly strlen and to write only "
        "its slice; polyseed_encode proved, under fits, to keep every intermediate cursor and the terminator inside the buffer, to satisfy its own "
@@ -152,12 +163,12 @@ P("C18", level="proof", design_ref="7/C18", units=["U.api.create", "U.dep.inject
        "injected clock exactly once and nothing else; polyseed_inject proved, from an arbitrary previous table, to copy every entry and to fall "
        "back to libc time/malloc/free exactly for NULL entries; goto-program scan: no direct call to any other external function.",
   note="The scan is of direct call targets before function-pointer removal; pointer calls must go through a polyseed_deps member.")
-P("C19", level="proof", design_ref="7/C19", both_chars=True, units=["U.str.nfkd_lazy", "B.str.nfkd_lazy", "U.api.crypt", "U.str.split"] + DEC + PHR + CMPU + CMPB, engines=["tables"],
+P("C19", level="proof", design_ref="7/C19", both_chars=True, units=uniq(["U.str.nfkd_lazy", "B.str.nfkd_lazy", "U.api.crypt", "U.str.split"] + DEC + PHR + CMPU + CMPB + CMPF), engines=["tables"],
   text="Every unit that handles plain char (lazy NFKD, tokeniser, the four comparers: unbounded safety and bounded rule, both decoders, crypt, the "
        "phrase decoders) is verified under -fsigned-char and -funsigned-char against the same byte-value specification; all closed word-list facts (sortedness, search, acceptance rule) are "
        "evaluated with both settings and must agree.",
   note="All other functions do not operate on plain char values (byte arrays are uint8_t); goto-cc honours -funsigned-char (measured).")
-P("C20", level="other", design_ref="7/C20", units=API_D + DEC + ["U.api.crypt", "U.api.encode", "U.dep.inject", "U.ft.enable"], engines=["statics"],
+P("C20", level="other", design_ref="7/C20", units=API_D + DEC + ["U.api.crypt", "U.api.encode", "U.dep.inject", "U.ft.enable"], engines=["statics", "calls"],
   text="Sequential contracts cannot explore schedules; what is proved is the sufficient condition: every API function other than "
        "inject/enable_features writes only objects reachable from its arguments, its locals and blocks it allocated (frames), and the only "
        "mutable static-lifetime objects are the four known ones, written only by inject/enable_features; no function-local statics.",
